@@ -1011,3 +1011,355 @@ Proof.
       splits; auto.
 Qed.
 Print Assumptions go_after_bestmove_accepted.
+
+(* ------------------------------------------------------------------ *)
+(* 5. when the stdin thread can be blocked, and isready                *)
+(* ------------------------------------------------------------------ *)
+
+(* in every join of the stdin thread other than the one of `wait`, the current flag is
+   down: ucinewgame / position / go / show reach their join only after the busy check saw
+   the flag down (or, ucinewgame, after storing false), stop after storing false - and the
+   flag can only be raised by the stdin thread itself, in command_go *)
+Definition JoinDown (s : state) : Prop :=
+  joinpc (pc s) = true -> pc s <> PWaitJoin -> curflag s = false.
+
+Lemma JoinDown_step : forall s l s', reachable s -> JoinDown s -> step s l = Some s' ->
+  JoinDown s'.
+Proof.
+  intros s l s' Hr HJ Hstep. unfold JoinDown in *.
+  destruct l as [cm| |k|k].
+  - unfold step, input_step in Hstep. destruct (exited s); [discriminate|].
+    destruct (pc s); try discriminate. inversion Hstep; subst s'; simpl.
+    destruct cm; simpl; congruence.
+  - get_inv s Hr. assert (Hlen : cur s < length (gos s)) by (destruct Hslot; auto).
+    destruct s as [p c gs m po gm h o pa ex]; simpl in *.
+    unfold curflag in *; simpl in *.
+    destruct p; main_compute Hstep; intros Hj Hw; try discriminate; try congruence;
+      try (rewrite getg_upd_eq by auto; reflexivity); try (apply HJ; auto).
+  - destruct (search_frame _ _ _ Hstep) as (F1 & F2 & _).
+    intros Hj Hw. rewrite F1 in *. specialize (HJ Hj Hw).
+    unfold curflag in *. rewrite F2.
+    destruct (flag (getg (gos s') (cur s))) eqn:E; auto.
+    destruct (flag_raised_only_before_timer s _ s' (cur s) Hr Hstep HJ E) as (H & _).
+    discriminate.
+  - destruct (timer_frame _ _ _ Hstep) as (F1 & F2 & _).
+    intros Hj Hw. rewrite F1 in *. specialize (HJ Hj Hw).
+    unfold curflag in *. rewrite F2.
+    destruct (flag (getg (gos s') (cur s))) eqn:E; auto.
+    destruct (flag_raised_only_before_timer s _ s' (cur s) Hr Hstep HJ E) as (H & _).
+    discriminate.
+Qed.
+
+Lemma JoinDown_run_from : forall ls s s', reachable s -> JoinDown s ->
+  run_from s ls = Some s' -> JoinDown s'.
+Proof.
+  induction ls as [|l t IH]; simpl; intros s s' Hr HJ H.
+  - inversion H; subst; auto.
+  - destruct (step s l) as [s1|] eqn:E; [|discriminate].
+    apply (IH s1 s'); [eapply reachable_step; eauto | eapply JoinDown_step; eauto | auto].
+Qed.
+
+Theorem join_flag_down : forall s, reachable s -> joinpc (pc s) = true ->
+  pc s <> PWaitJoin -> curflag s = false.
+Proof.
+  intros s Hr. pose proof Hr as [ls H].
+  apply (JoinDown_run_from ls init s reachable_init); auto.
+  intros Hj. discriminate.
+Qed.
+
+(* the flag of the AWAITED search thread (the slot of the kept JoinHandle) is down in every
+   join other than `wait`: the real search that the stdin thread waits for ends at its next
+   poll.  No premise "blocked" is needed. *)
+Theorem blocked_join_has_flag_down : forall s j, reachable s -> joinpc (pc s) = true ->
+  pc s <> PWaitJoin -> handle s = Some j -> flag (getg (gos s) j) = false.
+Proof.
+  intros s j Hr Hj Hw Hh. pose proof (join_flag_down s Hr Hj Hw) as Hf.
+  get_inv s Hr. destruct Hctl as (K1 & _). rewrite Hh in K1. destruct K1 as [-> _]. exact Hf.
+Qed.
+Print Assumptions blocked_join_has_flag_down.
+
+(* exact characterisation of a blocked stdin thread: it sits in a join on the search
+   thread of the current slot, that thread is runnable, and - unless the command is `wait` -
+   its flag is down *)
+Theorem blocked_main_characterised : forall s, reachable s -> exited s = false ->
+  pc s <> PIdle -> step s LMain = None ->
+  joinpc (pc s) = true /\ handle s = Some (cur s) /\ step s (LSearch (cur s)) <> None /\
+  alive (sst (getg (gos s) (cur s))) = true /\
+  (pc s <> PWaitJoin -> curflag s = false).
+Proof.
+  intros s Hr Hex Hp Hb.
+  destruct (blocked_main_waits_for_runnable s Hr Hex Hp Hb) as (Hj & Hh & Hs).
+  splits; auto.
+  - destruct (step s (LSearch (cur s))) as [s1|] eqn:E; [|congruence].
+    destruct (search_step_is_cur s _ s1 Hr E); auto.
+  - intros Hw. apply join_flag_down; auto.
+Qed.
+Print Assumptions blocked_main_characterised.
+
+(* `wait` is the exception, by design (a debugging command: "wait for the search"): the
+   stdin thread blocks in its join while the flag is still up; the only enabled engine-side
+   label is the search thread itself.  With `go infinite` the real engine stays there. *)
+Example ex_wait_blocks_with_flag_up :
+  option_map (fun s => (pc s, curflag s, handle s, sst (getg (gos s) (cur s))))
+             (run sched_wait_1) = Some (PWaitJoin, true, Some 1, SWaitLock)
+  /\ blocked (run sched_wait_1) LMain = true
+  /\ option_map (fun s => filter is_engine (enabled s)) (run sched_wait_1) = Some [LSearch 1].
+Proof. vm_compute. repeat split; reflexivity. Qed.
+
+(* the flag stays up while the search is searching and `wait` is blocked *)
+Example ex_wait_blocks_searching :
+  option_map (fun s => (pc s, curflag s, sst (getg (gos s) (cur s)), is_some (step s LMain)))
+             (run (sched_wait_1 ++ [LSearch 1])) = Some (PWaitJoin, true, SSearching, false).
+Proof. vm_compute. reflexivity. Qed.
+
+(* the stdin thread becomes idle by its own steps and those of the search thread it waits
+   for - no timer has to fire - in at most `measure s` steps *)
+Definition main_or_search (l : label) : Prop := l = LMain \/ exists i, l = LSearch i.
+
+Lemma idle_dec : forall p : pcT, {p = PIdle} + {p <> PIdle}.
+Proof. destruct p; auto; right; discriminate. Qed.
+
+Theorem main_reaches_idle : forall s, reachable s -> exited s = false -> pc s <> PQuit ->
+  exists ls s', Forall main_or_search ls /\ run_from s ls = Some s' /\
+    pc s' = PIdle /\ exited s' = false /\ length ls <= measure s.
+Proof.
+  assert (Hgen : forall n s, measure s <= n -> reachable s -> exited s = false -> pc s <> PQuit ->
+            exists ls s', Forall main_or_search ls /\ run_from s ls = Some s' /\
+              pc s' = PIdle /\ exited s' = false /\ length ls <= measure s).
+  2: { intros s. apply (Hgen (measure s)). lia. }
+  induction n as [|n IH]; intros s Hle Hr Hex Hq.
+  - destruct (idle_dec (pc s)) as [Hp|Hp].
+    + exists [], s. simpl. splits; auto. lia.
+    + exfalso. unfold measure in Hle. rewrite Hex in Hle.
+      destruct (pc s); simpl in Hle; try lia. congruence.
+  - destruct (idle_dec (pc s)) as [Hp|Hni].
+    + exists [], s. simpl. splits; auto. lia.
+    + assert (Hen : exists l, (l = LMain \/ l = LSearch (cur s)) /\ step s l <> None).
+      { destruct (main_progress s Hr Hex Hni) as [H|(_ & _ & H)]; eauto. }
+      destruct Hen as (l & Hlab & Hen).
+      destruct (step s l) as [s1|] eqn:E; [|congruence].
+      assert (Hl : engine l) by (destruct Hlab; subst l; auto).
+      pose proof (measure_decreases s l s1 E Hl) as Hm.
+      pose proof (reachable_step _ _ _ Hr E) as Hr1.
+      pose proof (not_exited_after s l s1 Hr E Hq) as Hx1.
+      assert (Hq1 : pc s1 <> PQuit)
+        by (intros Eq; apply Hq; eapply quit_only_by_input; eauto).
+      destruct (IH s1 ltac:(lia) Hr1 Hx1 Hq1) as (ls & s' & Hf & Hrun & Hi & Hx & Hlen).
+      exists (l :: ls), s'. simpl. rewrite E. splits; auto; try lia.
+      constructor; auto. unfold main_or_search. destruct Hlab; eauto.
+Qed.
+Print Assumptions main_reaches_idle.
+
+(* isready: unless the process has ended or is about to (quit read), EVERY maximal
+   engine-side continuation ends with the stdin thread idle, and there `isready` is
+   answered by two steps.  (By `isready_answered` it is answered as soon as the stdin
+   thread is idle, and by `main_reaches_idle` that needs only steps of the stdin thread and
+   of the search thread it joins.)  In the real engine the only thing that can delay this
+   is a search that keeps searching while the stdin thread is in a join - and by
+   `blocked_main_characterised` that search has its flag down unless the command is `wait`. *)
+Theorem isready_always_answered_eventually : forall s, reachable s -> exited s = false ->
+  pc s <> PQuit ->
+  (exists ls s', max_engine_run s ls s') /\
+  (forall ls s', max_engine_run s ls s' ->
+     length ls <= measure s /\ pc s' = PIdle /\ exited s' = false /\
+     exists s1 s2, step s' (LInput CIsReady) = Some s1 /\ step s1 LMain = Some s2 /\
+       out s2 = EReadyOk :: out s' /\ pc s2 = PIdle).
+Proof.
+  intros s Hr Hex Hq. split; [apply max_engine_run_exists|].
+  intros ls s' [Hrun Hst].
+  set (P := fun x : state => exited x = false /\ pc x <> PQuit).
+  assert (HP : forall x l x', reachable x -> P x -> engine l -> step x l = Some x' -> P x').
+  { intros x l x' Hrx (Hxx & Hqx) Hl Hs. split.
+    - eapply not_exited_after; eauto.
+    - intros Eq. apply Hqx. eapply quit_only_by_input; eauto. }
+  destruct (engine_run_invariant P HP ls s s' Hr (conj Hex Hq) Hrun) as (Hx' & Hq').
+  pose proof (engine_run_reachable _ _ _ Hr Hrun) as Hr'.
+  pose proof (quiescent_idle s' (stuck_quiescent s' Hr' Hst) Hx') as Hidle.
+  splits; auto.
+  - eapply no_livelock; eauto.
+  - destruct (isready_answered s' Hidle Hx') as (s1 & s2 & A & B & C & D & _).
+    exists s1, s2. auto.
+Qed.
+Print Assumptions isready_always_answered_eventually.
+
+(* ------------------------------------------------------------------ *)
+(* 6. no refusal on the way; a constant bound per command              *)
+(* ------------------------------------------------------------------ *)
+
+(* on the way of the accepted go / the position after a bestmove the refusing program
+   points (`error: search is still running`, `error: No game to play`) are never visited *)
+Theorem go_never_refused : forall s t s1 ls s', reachable s -> exited s = false ->
+  pc s = PIdle -> game s = true -> alive (sst (getg (gos s) (cur s))) = false ->
+  step s (LInput (CGo t)) = Some s1 -> engine_run s1 ls s' ->
+  pc s' <> PGoBusy /\ pc s' <> PGoErr /\ exited s' = false.
+Proof.
+  intros s t s1 ls s' Hr Hex Hp Hg Ha Hs1 Hrun.
+  pose proof (reachable_step _ _ _ Hr Hs1) as Hr1.
+  assert (P1 : GoPh (length (gos s)) t s1).
+  { unfold step, input_step in Hs1. rewrite Hex, Hp in Hs1. inversion Hs1; subst s1; simpl.
+    unfold GoPh; simpl. split; [exact Hex|]. left. auto 8. }
+  pose proof (engine_run_invariant _ (GoPh_step _ t) ls s1 s' Hr1 P1 Hrun) as (Hx & Hph).
+  splits; auto; intros E; rewrite E in Hph;
+    repeat match goal with
+           | H : _ \/ _ |- _ => destruct H
+           | H : _ /\ _ |- _ => destruct H
+           end; discriminate.
+Qed.
+
+Theorem position_after_bestmove_never_refused : forall s s1 ls s', reachable s ->
+  exited s = false -> pc s = PIdle -> In (EBestmove (cur s)) (out s) ->
+  step s (LInput (CPosition true)) = Some s1 -> engine_run s1 ls s' ->
+  pc s' <> PPosBusy /\ exited s' = false.
+Proof.
+  intros s s1 ls s' Hr Hex Hp Hin Hs1 Hrun.
+  pose proof (reachable_step _ _ _ Hr Hs1) as Hr1.
+  assert (Hlen : cur s < length (gos s)).
+  { get_inv s Hr. destruct Hslot; auto. }
+  assert (Hpr : printed (sst (getg (gos s) (cur s))) = true).
+  { apply cnt_In in Hin. rewrite bestmove_count_exact in Hin by auto.
+    destruct (printed _); simpl in Hin; auto; lia. }
+  assert (P1 : PosPh (cur s) (length (gos s)) s1).
+  { unfold step, input_step in Hs1. rewrite Hex, Hp in Hs1. inversion Hs1; subst s1; simpl.
+    unfold PosPh; simpl. splits; auto. }
+  pose proof (engine_run_invariant _ (PosPh_step _ _) ls s1 s' Hr1 P1 Hrun)
+    as (Hx & _ & _ & _ & Hph).
+  split; auto. intros E; rewrite E in Hph;
+    repeat match goal with
+           | H : _ \/ _ |- _ => destruct H
+           | H : _ /\ _ |- _ => destruct H
+           end; discriminate.
+Qed.
+Print Assumptions go_never_refused.
+Print Assumptions position_after_bestmove_never_refused.
+
+(* the part of the measure that does not count timers: it decreases with every step of the
+   stdin thread and of a search thread, a timer step leaves it alone, and it is at most 23
+   in a reachable state: 17 (the longest command, go) + 6 (the one live search thread) *)
+Definition rk (g : gorec) : nat := rank (sst g).
+Definition sl (g : gorec) : nat := tmr (tst g).
+
+Definition work (s : state) : nat :=
+  if exited s then 0 else pcm (pc s) + sumg rk (gos s).
+Definition sleeping (s : state) : nat := sumg sl (gos s).
+
+Lemma sumg_plus : forall a b l, sumg (fun g => a g + b g) l = sumg a l + sumg b l.
+Proof. intros a b l; induction l as [|g t IH]; simpl; lia. Qed.
+
+Lemma measure_split : forall s, exited s = false -> measure s = work s + sleeping s.
+Proof.
+  intros s Hex. unfold measure, work, sleeping. rewrite Hex.
+  change wgt with (fun g => rk g + sl g). rewrite sumg_plus. lia.
+Qed.
+
+Lemma sumg_single : forall w l c, c < length l ->
+  (forall j, j <> c -> w (getg l j) = 0) -> sumg w l = w (getg l c).
+Proof.
+  unfold getg; intros w l; induction l as [|g t IH]; intros [|c] Hc H; simpl in *; try lia.
+  - assert (Z : sumg w t = 0).
+    { clear IH Hc. assert (H' : forall j, w (nth j t gfresh) = 0).
+      { intros j. apply (H (S j)). lia. }
+      clear H. induction t as [|g' t' IHt]; simpl; auto.
+      pose proof (H' 0) as Z0. simpl in Z0. rewrite Z0. simpl. apply IHt. intros j. apply (H' (S j)). }
+    lia.
+  - rewrite (IH c); try lia.
+    + pose proof (H 0 ltac:(lia)) as H0. simpl in H0. lia.
+    + intros j Hj. apply (H (S j)). lia.
+Qed.
+
+Lemma work_bound : forall s, reachable s -> work s <= 23.
+Proof.
+  intros s Hr. unfold work. destruct (exited s); [lia|].
+  get_inv s Hr. assert (Hlen : cur s < length (gos s)) by (destruct Hslot; auto).
+  rewrite (sumg_single rk (gos s) (cur s) Hlen).
+  - assert (A : pcm (pc s) <= 17) by (destruct (pc s); simpl; lia).
+    assert (B : rk (getg (gos s) (cur s)) <= 6)
+      by (unfold rk; destruct (sst _); simpl; lia).
+    lia.
+  - intros j Hj. unfold rk. destruct (one_search_thread s j Hr Hj) as [E|E]; rewrite E; reflexivity.
+Qed.
+
+Lemma sumg_rk_upd_le : forall f l i d,
+  (forall g, rk (f g) <= rk g + d) -> sumg rk (upd i f l) <= sumg rk l + d.
+Proof.
+  intros f l i d H. destruct (lt_dec i (length l)) as [Hi|Hi].
+  - pose proof (sumg_upd rk f l i Hi) as E. specialize (H (getg l i)). lia.
+  - rewrite upd_overflow by lia. lia.
+Qed.
+
+Lemma work_main : forall s s', exited s = false -> main_step s = Some s' -> work s' < work s.
+Proof.
+  intros [p c gs m po gm h o pa ex] s' Hex Hstep; simpl in *. subst ex.
+  unfold main_step in Hstep; simpl in Hstep.
+  destruct p; unfold_step Hstep; break_in Hstep; inversion Hstep; subst s'; clear Hstep;
+    unfold work; simpl; try lia.
+  all: try (match goal with |- context [sumg rk (upd ?i ?f ?l)] =>
+              let B := fresh "B" in
+              first [ assert (B : sumg rk (upd i f l) <= sumg rk l + 0)
+                        by (apply sumg_rk_upd_le; intros [fl ss ts st]; unfold rk; simpl; lia)
+                    | assert (B : sumg rk (upd i f l) <= sumg rk l + 6)
+                        by (apply sumg_rk_upd_le; intros [fl ss ts st]; unfold rk; simpl; lia) ]
+            end; lia).
+  - rewrite sumg_app. simpl. unfold rk; simpl. lia.
+Qed.
+
+Lemma work_search : forall s i s', exited s = false -> search_step s i = Some s' ->
+  work s' < work s.
+Proof.
+  intros [p c gs m po gm h o pa ex] i s' Hex Hstep; simpl in *. subst ex.
+  unfold search_step in Hstep; simpl in Hstep.
+  assert (Hi : i < length gs).
+  { apply sst_in_range. intros E. rewrite E in Hstep. discriminate. }
+  destruct (sst (getg gs i)) eqn:Es; unfold_step Hstep; break_in Hstep;
+    inversion Hstep; subst s'; clear Hstep; unfold work; simpl.
+  all: apply Nat.add_lt_mono_l;
+    match goal with |- sumg rk (upd ?i ?f ?l) < _ =>
+      pose proof (sumg_upd rk f l i Hi) as E end;
+    unfold rk in *; simpl in *; rewrite Es in E; simpl in E; lia.
+Qed.
+
+Theorem work_decreases : forall s l s', step s l = Some s' -> main_or_search l ->
+  work s' < work s.
+Proof.
+  intros s l s' Hstep Hl. unfold step in Hstep.
+  destruct (exited s) eqn:Hex; [discriminate|].
+  destruct Hl as [->|[i ->]].
+  - apply work_main; auto.
+  - eapply work_search; eauto.
+Qed.
+
+(* bounded response: in a reachable state, the stdin thread and the search threads together
+   can take at most 23 steps without new input, whatever the timers do in between *)
+Theorem at_most_23_steps : forall ls s s', reachable s -> run_from s ls = Some s' ->
+  Forall engine ls -> length (filter (fun l => match l with LTimer _ => false | _ => true end) ls) <= 23.
+Proof.
+  intros ls s s' Hr Hrun Hf.
+  cut (length (filter (fun l => match l with LTimer _ => false | _ => true end) ls) + work s'
+       <= work s).
+  { pose proof (work_bound s Hr). lia. }
+  clear Hr. revert s Hrun Hf. induction ls as [|l t IH]; intros s Hrun Hf; simpl in *.
+  - inversion Hrun; subst. lia.
+  - destruct (step s l) as [s1|] eqn:E; [|discriminate].
+    inversion Hf as [|? ? Hl Ht]; subst.
+    specialize (IH s1 Hrun Ht).
+    destruct l as [cm| |i|i]; simpl.
+    + exfalso. apply (Hl cm); reflexivity.
+    + pose proof (work_decreases s LMain s1 E (or_introl eq_refl)). lia.
+    + pose proof (work_decreases s (LSearch i) s1 E (or_intror (ex_intro _ i eq_refl))). lia.
+    + assert (W : work s1 = work s).
+      { destruct s as [p c gs m po gm h o pa ex]. unfold step in E; simpl in E.
+        destruct ex; [discriminate|]. unfold timer_step in E; simpl in E.
+        destruct (tst (getg gs i)) eqn:Et; try discriminate E.
+        assert (Hi : i < length gs) by (apply tst_in_range; congruence).
+        inversion E; subst s1. unfold work, upd_slot, set_gos; simpl.
+        pose proof (sumg_upd rk g_fire gs i Hi) as U. unfold rk in *; simpl in *. lia. }
+      lia.
+Qed.
+Print Assumptions at_most_23_steps.
+
+Theorem measure_bound : forall s, reachable s -> measure s <= 23 + sleeping s.
+Proof.
+  intros s Hr. destruct (exited s) eqn:Hex.
+  - unfold measure. rewrite Hex. lia.
+  - rewrite measure_split by auto. pose proof (work_bound s Hr). lia.
+Qed.
+Print Assumptions measure_bound.
